@@ -350,7 +350,9 @@ def refplot_from_desc(desc):
             arr = np.empty(shape + (len(fields),))
             for f, kind in enumerate(kinds):
                 # per-field modifiers: "<kind>*<factor>" scales, "<kind>+hostile" overlays the non-finite / denormal patterns
-                scale, overlay = None, False
+                scale, overlay, interior = None, False, False
+                if kind.endswith("+nfinterior"):
+                    kind, interior = kind[:-11], True
                 if kind.endswith("+hostile"):
                     kind, overlay = kind[:-8], True
                 if "*" in kind:
@@ -360,6 +362,11 @@ def refplot_from_desc(desc):
                     a = a * scale
                 if overlay:
                     a = apply_hostile(a, f, nan=True)
+                if interior and all(n_ >= 4 for n_ in shape):
+                    # non-finite values in INTERIOR cells (one cell away from every face of the box)
+                    a[(1,) * nd] = np.nan
+                    a[(2,) + (1,) * (nd - 1)] = np.inf
+                    a[(1,) * (nd - 1) + (2,)] = -np.inf
                 if kind == 'boxcancel':
                     # box sums 1e16, 1, -1e16, 1, ... in box order (exact: cell counts are powers of two or small):
                     # sequential accumulation gives another result than any regrouping of the boxes
